@@ -18,7 +18,12 @@ def _probe(form, ell):
     ys = {0: 4, 1: 4, 2: 8, 3: 16, 4: 32}[form]
     xm = M32 if form == 0 else M64
     ym = M32 if (form == 0 or form >= 2) else M64
-    return [str(xm if (i // xs) % 2 else 0) for i in range(xs * ell)] + [str(ym - (i % 3)) for i in range(ys * ell)]
+    alt = [str(xm if (i // xs) % 2 else 0) for i in range(xs * ell)] + [str(ym - (i % 3)) for i in range(ys * ell)]
+    # the property's other worst-case patterns: maximal x against 32-bit y, complementary high halves, one maximal term at the end
+    small_y = [str(xm) for i in range(xs * ell)] + [str(min(ym, M32) - (i % 2)) for i in range(ys * ell)]
+    compl = [str(0xAAAAAAAA55555555 & xm) for i in range(xs * ell)] + [str(0x55555555AAAAAAAA & ym) for i in range(ys * ell)]
+    last = [str(xm if i >= xs * (ell - 1) else 0) for i in range(xs * ell)] + [str(ym) for i in range(ys * ell)]
+    return [alt, small_y, compl, last]
 
 
 def product_obs(ctx, tdir, ells):
